@@ -163,6 +163,29 @@ theorem run_isolated (host : List Bytes) (n j : Nat) (ops : List (Nat × Op)) (h
   apply key
   simp [World.init, hj]
 
+/-- **the snapshot is taken when the module is first required in that runtime**: a runtime created later sees the
+host environment as it is *then* (every name with the host's current value), and creating it changes no other runtime -/
+theorem new_runtime_sees_the_current_host (w : World) (k : Bytes) :
+    (w.stepW .newRuntime).rts.length = w.rts.length + 1 ∧
+    (∀ m, (w.stepW .newRuntime).rts[w.rts.length]? = some m → lookup m k = hostValue w.host k) ∧
+    (∀ j, j < w.rts.length → (w.stepW .newRuntime).rts[j]? = w.rts[j]?) ∧
+    (w.stepW .newRuntime).host = w.host := by
+  refine ⟨by simp [World.stepW], ?_, ?_, rfl⟩
+  · intro m hm
+    have : m = snapshot w.host := by simpa [World.stepW] using hm.symm
+    rw [this]; exact snapshot_exact w.host k
+  · intro j hj; simp [World.stepW, List.getElem?_append_left hj]
+
+/-- **later changes of the host's environment reach no existing runtime** (and JavaScript writes never reach the host:
+`step_isolated`) -/
+theorem host_changes_reach_no_runtime (w : World) (k v : Bytes) :
+    (w.stepW (.hostSet k v)).rts = w.rts ∧ (w.stepW (.hostDel k)).rts = w.rts := ⟨rfl, rfl⟩
+
+/-- a JavaScript write or delete, in the extended world, still touches only its own runtime and not the host -/
+theorem js_step_isolated (w : World) (i j : Nat) (op : Op) (h : i ≠ j) :
+    (w.stepW (.js i op)).rts[j]? = w.rts[j]? ∧ (w.stepW (.js i op)).host = w.host :=
+  step_isolated w i j op h
+
 /-- non-vacuity: a value with several `=`, an empty value, an entry without `=` -/
 example : snapshot ["A=b=c".toUTF8.toList, "E=".toUTF8.toList, "NOEQ".toUTF8.toList] =
     [("E".toUTF8.toList, []), ("A".toUTF8.toList, "b=c".toUTF8.toList)] := by decide +kernel
